@@ -32,9 +32,14 @@ func cmdJSON(o *Out, p *Package, j Job) {
 	}
 	emitDocs := j.Opts["docs"] == "1"
 	rng := newRand(j.Seed, p.ID, "json")
+	reachable := p.Reachable()
 	for _, t := range p.Types {
 		if t.Kind() == reflect.Interface {
 			continue
+		}
+		if !reachable[t] {
+			o.Count("types-not-reachable-from-source-skipped", 1)
+			continue // the generators only cover what the analysed file reaches
 		}
 		if len(only) > 0 && !only[t.Name()] {
 			continue
